@@ -735,10 +735,39 @@ def backup_numeric_order(fx):
     obs = []
     n = 0
     nfn = 0
+    cg = q.callgraph(fx)
+    scanners = set(p_ for p_, g_ in fx.fns.items() if g_.crate == "libxcp" and not g_.from_expansion and any(
+        x in cg.reach(p_) for x in ("std::path::Path::read_dir", "std::fs::read_dir")))
+    import views as _v
+    role_entries = set(_v.roles(fx).values()) | set(ENTRY_POINTS) | {MAIN}
     for f in ro.fns_in_scope(fx, crates=("libxcp",)):
-        if not f.path.startswith("libxcp::backup::"):
+        # the backup-name logic: the backup module, and whatever (below the roles) scans a directory for earlier backups
+        in_scope = f.path.startswith("libxcp::backup::") or ((f.path in scanners or f.root in scanners)
+                                                             and f.path not in role_entries and f.root not in role_entries
+                                                             and not cg.reach(f.path).get(CB_SEND) and "drivers" not in f.path
+                                                             and WALKER != f.root and NEW != f.root)
+        if not in_scope:
             continue
         nfn += 1
+        # explicit comparisons (`if num > current`) order values too
+        for bi, b in enumerate(f.blocks):
+            if b.get("cleanup"):
+                continue
+            for s_ in b["stmts"]:
+                rv = s_["rv"]
+                if rv["k"] == "bin" and rv["op"] in ("Gt", "Lt", "Ge", "Le"):
+                    tys = []
+                    for o_ in (rv["a"], rv["b"]):
+                        l_ = op_local(o_)
+                        tys.append(f.locals[l_]["ty"] if l_ is not None else (o_.get("c") or {}).get("ty", "?"))
+                    if all(t_ in ("usize", "bool") for t_ in tys):
+                        continue        # lengths, indices
+                    ok = all(_int_like(x) for x in tys)
+                    obs.append(Ob("R-TABLE", mkkey("R-TABLE", f.path, "compare:" + rv["op"], n, "numeric-order"), ok,
+                                  "%s:%d" % (s_["span"]["file"], s_["span"]["line"]), f.path,
+                                  "%s in the backup-number logic orders values of type %s" % (rv["op"], tys),
+                                  None if ok else dict(types=tys)))
+                    n += 1
         for bi, t in f.calls():
             if q.span_excluded(t["span"]):
                 continue
